@@ -678,6 +678,17 @@ Theorem C03_validate_iff : forall c mt,
 Proof. exact validate_iff. Qed.
 Print Assumptions C03_validate_iff.
 
+(** the same for the member-based reading on coherent matchers *)
+Theorem C03_validate_iff_members : forall c mt,
+  assert_app c = true -> fm_wf mt -> keys_ok c (mt_args mt) ->
+  (forall p, In p (positionals c) -> a_index p <> None) ->
+  negb (is_some (mt_sub mt)) && is_set s_arg_required_else_help c && is_nil (explicit_entries mt) = false ->
+  negb (is_some (mt_sub mt)) && is_set s_sub_required c = false ->
+  coherent_b c mt = true ->
+  (validate c mt = VOk <-> RelationsM c mt).
+Proof. exact validate_iff_members. Qed.
+Print Assumptions C03_validate_iff_members.
+
 (** on the parser's own states the side conditions are discharged by the loop invariant *)
 Theorem C03_validate_iff_invariant : forall c st,
   wfc c -> assert_app c = true -> G c idx_inv trivV st ->
